@@ -19,6 +19,13 @@ RULE = ('systematic single-fault sweep: for each of the base scenarios '
         'RST at EVERY byte offset of the server stream, shutdown/close '
         'raising; then seeded multi-fault runs.  Non-trivial = a fault '
         'actually fired; distinct = distinct (base, fault descriptor) pairs')
+RULE += (' '
+         'Further families: `two_sessions` (ThreadSim, two WebSocket objects '
+         'with their own event-loop threads: a send on one is stuck in '
+         'sendall for 30-60 s while the transport of the other fails - the '
+         'failure must be reported within two poll intervals and the socket '
+         'closed) and `persist_marathon` (more than a thousand consecutive '
+         'failures through persist(): nothing may escape).')
 SHRINK_LISTS = [('faults',)]
 EXPECTED_PROBES = ['fault_before_connected', 'fault_after_ready',
                    'next_address_tried', 'all_addresses_tried',
